@@ -90,7 +90,7 @@ func RaceWorker(path string) {
 }
 
 func detDocs(g *gen.G) []any {
-	switch g.N(8) {
+	switch g.N(9) {
 	case 0: // a wide map through $encode transforms that iterate maps
 		m := map[string]any{}
 		for i := 0; i < 8+g.N(6); i++ {
@@ -109,6 +109,11 @@ func detDocs(g *gen.G) []any {
 		return []any{m, []any{map[string]any{"$output": true}, 1, []any{2, map[string]any{"$output": true}}}}
 	case 3: // named repeat products
 		return []any{map[string]any{"$repeat": map[string]any{"b": 2, "a": 2, "c": 1 + g.N(2)}, "v": `$"{$repeat:a}{$repeat:b}{$repeat:c}"`}}
+	case 5: // repeat variables must not outlive the evaluation that bound them
+		if g.P(0.5) {
+			return []any{map[string]any{"$repeat": map[string]any{"x": 2, "y": 1 + g.N(2)}, "v": `$"{$repeat:x}/{$repeat.x}/{$repeat.y}"`}}
+		}
+		return []any{map[string]any{"a": g.Pick([]string{`$"n={$repeat.x}"`, `$"n={$repeat:x}"`, "$repeat", `$"{$repeat.y}"`})}}
 	case 4: // a root-level $merge of a subtree that contains its own key
 		return []any{map[string]any{"$merge": "c", "c": map[string]any{"c": g.N(3), "d": 1}, "e": "$merge:c"}}
 	default:
@@ -164,6 +169,14 @@ func C09(r *Run) {
 	if err != nil {
 		if ee, ok := err.(*exec.ExitError); ok && ee.ExitCode() == 66 {
 			races = 1
+		} else if containsStr(stderr.String(), "fatal error: concurrent map") || containsStr(stderr.String(), "WARNING: DATA RACE") {
+			r.Violate("concurrent evaluations crashed on shared state: "+trunc(stderr.String(), 300),
+				map[string]any{"kind": "race", "report": trunc(stderr.String(), 4000)})
+			r.Cov["evaluations"], r.Cov["distinct_nontrivial"] = n, n
+			r.Cov["rule"] = "aborted: the concurrent worker crashed"
+			r.Cov["states"], r.Cov["transitions"], r.Cov["traces_validated_against_impl"] = 1, 1, 0
+			r.Sample(map[string]any{"input": inputs[0]})
+			return
 		} else {
 			Fatal("race worker failed: %v: %.500s", err, stderr.String())
 		}
